@@ -202,3 +202,24 @@ Example C01_rest_default_example :
 :param ratio: load factor, Defaults to 12.5
 "%string.
 Proof. vm_compute. split; reflexivity. Qed.
+
+(* ---- style detection precedes parsing (derive_docstring_format: token presence, ReST first; Model/StyleDetect.v, compared with
+   the code on token text each run).  The ReST text of EVERY interface of the round-trip theorem's domain is detected as ReST, so the
+   ReST scanner and parser of the theorems above are the ones parse_docstring runs on it. *)
+From CDD Require StyleDetect StyleDetectProofs.
+Theorem C01_rest_text_is_detected_as_rest : forall doc ps ret,
+  clean doc = true -> forallb param_ok ps = true -> ps <> [] -> ret_ok ret = true ->
+  StyleDetect.derive_format (emit_rest true doc ps ret) = StyleDetect.Rest.
+Proof. exact StyleDetectProofs.emitted_rest_is_rest. Qed.
+Print Assumptions C01_rest_text_is_detected_as_rest.
+
+Theorem C01_style_tokens_are_the_sources :
+  StyleDetect.google_tokens = src_google_tokens /\ StyleDetect.numpydoc_tokens = src_numpydoc_tokens.
+Proof. split; vm_compute; reflexivity. Qed.
+
+(* prose alone decides as well (facts about the faithful model): a description that merely mentions "Args:" is read as Google *)
+Example C01_style_examples :
+  StyleDetect.derive_format (s2l "Just prose."%string) = StyleDetect.Numpydoc
+  /\ StyleDetect.derive_format (s2l "Args: are described below"%string) = StyleDetect.Google
+  /\ StyleDetect.derive_format (s2l "See :param x: above. Args: too"%string) = StyleDetect.Rest.
+Proof. exact StyleDetectProofs.style_examples. Qed.
